@@ -5,11 +5,17 @@ import Stackage.Model.Options
 namespace Stackage.Driver
 open Stackage
 
+/-- Unmarshaler closures by id (shared with harness/val.go `unmarshalerFor`): every id returns the slice `["U", id]`;
+id 3 returns it together with an error (class 204) -/
+def umfResult (p : Nat) : List Val × Option Nat :=
+  ([.leaf (.str ['U']), .leaf (.int p)], if p == 3 then some 204 else none)
+
 /-- closures used by the harness (ids shared with harness/val.go): validity 1 = accepts, 2 = rejects (class 201);
-presentation p renders the text `<P{p}>` -/
+presentation p renders the text `<P{p}>`; unmarshaler p: `umfResult p` -/
 def closures : Closures :=
   { valid := fun p => if p == 2 then some 201 else none,
-    present := fun p => s!"<P{p}>".toList }
+    present := fun p => s!"<P{p}>".toList,
+    unmarshal := umfResult }
 
 def runRender (payload : String) : String × String × String :=
   match (parseVal (words payload)).1 with
